@@ -128,3 +128,31 @@ fn ref_new_repeats_6_0_6() { ref_new_repeats::<6, 0, 6, 12>(); }
 #[kani::stub(core::str::from_utf8, stub_from_utf8)]
 #[kani::unwind(13)]
 fn ref_new_repeats_5_1_5() { ref_new_repeats::<5, 1, 5, 11>(); }
+
+/// C04.ref (small): contigs "ACGTA", "G", "ACGTA" with an arbitrary case mask (2^11 inputs): the only split k-mer
+/// of contig 1 is repeated on contig 3, contig 2 is shorter than k and has no k-mer at all. The repeat mask must be
+/// exactly the absolute positions 0..=4 and 6..=10.
+#[kani::proof]
+#[kani::stub(core::str::from_utf8, stub_from_utf8)]
+#[kani::unwind(13)]
+fn ref_new_repeats_case_mask_5_1_5() {
+    const T: usize = 11;
+    let base = *b"ACGTAGACGTA";
+    let mut flat = [0u8; T];
+    let mut i = 0;
+    while i < T { let lower: bool = kani::any(); flat[i] = if lower { base[i] | 0x20 } else { base[i] }; i += 1; }
+    vfs_set(vec![ModelFile { path: "ref.fa", records: vec![
+        ModelRecord { id: b"c1", seq: flat[0..5].to_vec(), qual: None },
+        ModelRecord { id: b"c2", seq: flat[5..6].to_vec(), qual: None },
+        ModelRecord { id: b"c3", seq: flat[6..11].to_vec(), qual: None }] }]);
+    let r = RefSka::<u64>::new(K, &vfs_path("ref.fa"), false, false, true);
+    assert!(r.split_kmer_pos.len() == 2, "one split k-mer on the first and one on the third contig");
+    assert!(r.split_kmer_pos[0].kmer == r.split_kmer_pos[1].kmer, "the same split k-mer (case-insensitive)");
+    assert!(r.split_kmer_pos[0].chrom == 0 && r.split_kmer_pos[1].chrom == 2 && r.split_kmer_pos[0].pos == 2 && r.split_kmer_pos[1].pos == 2, "contig and centre");
+    let exp = [0usize, 1, 2, 3, 4, 6, 7, 8, 9, 10];
+    assert!(r.repeat_coors.len() == exp.len(), "repeat mask covers both windows, nothing else");
+    let mut q = 0;
+    while q < 10 { assert!(r.repeat_coors[q] == exp[q], "repeat mask = absolute positions within (k-1)/2 of the centre of the repeated split k-mer"); q += 1; }
+    kani::cover!(flat[0] == b'a' && flat[10] == b'A', "mixed case");
+    std::mem::forget(r);
+}
